@@ -133,6 +133,27 @@ func (n *btNode) allPgids(out map[string]bool) {
 	}
 }
 
+// spans: the page span [first, last] of every node, from the node's serialized size
+// (16-byte header, 16 bytes per element, keys and values) and the page size
+func (n *btNode) spans(ps int, out map[string][2]uint64) {
+	size := 16
+	if n.leaf {
+		for _, it := range n.items {
+			size += 16 + len(unhx(it[0])) + len(tokenVal(it[1]))
+		}
+	} else {
+		for _, k := range n.seps {
+			size += 16 + len(unhx(k))
+		}
+	}
+	var id uint64
+	fmt.Sscan(n.pgid, &id)
+	out[n.pgid] = [2]uint64{id, id + uint64((size+ps-1)/ps) - 1}
+	for _, c := range n.kids {
+		c.spans(ps, out)
+	}
+}
+
 func btKeep(s string, keep map[string]bool) string {
 	n, _ := parseBT(strings.Fields(s))
 	if n == nil {
@@ -364,6 +385,48 @@ func runBTreeScenario(rep *Report, sc btScenario, tag string) int {
 					rep.violation("C06", "monitor", "btree-old-page-modified", fmt.Sprintf("tx %d: page %s belongs to the old tree and is still referenced by the committed tree, but its content (or something below it) changed", ti, pg), sc)
 					break
 				}
+			}
+		}
+		// the hypotheses of C01Tree.commit_written on the real commit: the page spans of the nodes the
+		// commit wrote (ids not in the old tree) are at least page 2, pairwise disjoint and disjoint
+		// from every page span of the old tree (which open readers and a crash before the meta write
+		// still need)
+		{
+			oldSp, newSp := map[string][2]uint64{}, map[string][2]uint64{}
+			if bn, _ := parseBT(strings.Fields(before)); bn != nil {
+				bn.spans(sc.PageSize, oldSp)
+			}
+			if an, _ := parseBT(strings.Fields(after)); an != nil {
+				an.spans(sc.PageSize, newSp)
+			}
+			var fresh [][2]uint64
+			for pg, sp := range newSp {
+				// page id 0: an inline bucket, written inside a leaf element of its parent, not on a page of its own
+				if _, kept := oldSp[pg]; !kept && sp[0] != 0 {
+					fresh = append(fresh, sp)
+				}
+			}
+			delete(oldSp, "0")
+			bad := ""
+			for i, a := range fresh {
+				if a[0] < 2 {
+					bad = fmt.Sprintf("a node was written at page %d", a[0])
+				}
+				for _, b := range fresh[i+1:] {
+					if !(a[1] < b[0] || b[1] < a[0]) {
+						bad = fmt.Sprintf("two nodes written by the commit overlap: pages %d-%d and %d-%d", a[0], a[1], b[0], b[1])
+					}
+				}
+				for _, b := range oldSp {
+					if !(a[1] < b[0] || b[1] < a[0]) {
+						bad = fmt.Sprintf("a node written by the commit (pages %d-%d) overlaps pages %d-%d of the tree the transaction started from", a[0], a[1], b[0], b[1])
+					}
+				}
+			}
+			if bad != "" {
+				rep.violation("C06", "monitor", "btree-written-over-old-tree", fmt.Sprintf("tx %d: %s", ti, bad), sc)
+			} else if len(fresh) > 0 {
+				rep.count("written-spans-disjoint")
 			}
 		}
 		// pages of the old tree the transaction freed = old pages that do not survive, each once
